@@ -192,7 +192,7 @@ impl PrivateKey {
     }
 
     pub fn algorithm(&self) -> crate::format::schema::public_key::Algorithm {
-        crate::format::schema::public_key::Algorithm::Ed25519
+        crate::format::schema::public_key::Algorithm::Secp256r1
     }
 }
 
@@ -272,7 +272,7 @@ impl PublicKey {
     }
 
     pub fn from_proto(key: &schema::PublicKey) -> Result<Self, error::Format> {
-        if key.algorithm != schema::public_key::Algorithm::Ed25519 as i32 {
+        if key.algorithm != schema::public_key::Algorithm::Secp256r1 as i32 {
             return Err(error::Format::DeserializationError(format!(
                 "deserialization error: unexpected key algorithm {}",
                 key.algorithm
@@ -284,7 +284,7 @@ impl PublicKey {
 
     pub fn to_proto(&self) -> schema::PublicKey {
         schema::PublicKey {
-            algorithm: schema::public_key::Algorithm::Ed25519 as i32,
+            algorithm: schema::public_key::Algorithm::Secp256r1 as i32,
             key: self.to_bytes().to_vec(),
         }
     }
@@ -309,7 +309,7 @@ impl PublicKey {
     }
 
     pub fn algorithm(&self) -> crate::format::schema::public_key::Algorithm {
-        crate::format::schema::public_key::Algorithm::Ed25519
+        crate::format::schema::public_key::Algorithm::Secp256r1
     }
 
     pub(crate) fn write(&self, f: &mut std::fmt::Formatter<'_>) -> std::fmt::Result {
